@@ -5,6 +5,14 @@ pid = sys.argv[1]; n = int(sys.argv[2]) if len(sys.argv) > 2 else 3
 p = [json.loads(l) for l in open('/verif/properties.jsonl') if json.loads(l)['id'] == pid][0]
 files = ", ".join(p['anchors']['files'])
 mech = "; ".join("%s (%s)" % (m.get('name',''), m.get('where','')) for m in p['anchors'].get('mechanism', []))
+import glob, os
+prev = []
+for d in sorted(glob.glob('/verif/seeded/%s-*/meta.json' % pid)):
+    m = json.load(open(d))
+    prev.append("- " + (m.get('summary') or '')[:260].replace("\n", " "))
+PREVIOUS = ""
+if prev and os.environ.get("MUT_ROUND2"):
+    PREVIOUS = "\n\nOther people have already produced the following breaking changes for this property; yours must be DIFFERENT in site and mechanism (do not redo these, and prefer code paths, input shapes, interleavings and multi-step sequences these do not touch):\n" + "\n".join(prev)
 print(f"""You are testing how well a semantic property of a Go codebase is protected. Work only inside the git worktree /tmp/mut/{pid} (a scratch checkout of the MixinNetwork/mixin repository: the Mixin Kernel, a Go BFT-DAG blockchain node). Do not look at or touch /verif or /repo. Ignore files named verif_hooks_*.go (test hooks behind a build tag; do not edit them). No network is available. Go env for every command: `export GOFLAGS=-mod=mod GOPROXY=off` (do NOT set GOSUMDB=off).
 
 The property ({pid} — {p['title']}): "{p['statement']}"
@@ -13,4 +21,4 @@ Anchored in: {files}. Mechanisms meant to make it hold: {mech}
 
 Task: produce {n} different, realistic changes to the repository's non-test source (each a separate patch against the unmodified worktree) that each BREAK this property while (a) the code still compiles (`go build ./...` and `go test -count=1 -run '^$' ./...`), and (b) the repository's existing tests still pass — run at least the packages that could be affected with `go test -vet=off -count=1 ./<pkg>/...` (common, crypto, storage, kernel, p2p as relevant; kernel takes a few minutes; `rpc` TestConsensus is flaky and may be skipped). Prefer changes that need something specific to manifest — a particular interleaving, a crash or fault at a particular point, a multi-step sequence of operations, an unusual input or boundary value, or two cooperating sites that each look fine alone — not changes that ordinary use would expose at once. They should look like something a maintainer could plausibly commit by mistake (a refactor, an optimisation, a tidy-up, an off-by-one, a dropped guard, a reordered pair of statements).
 
-For each change i write into /tmp/mut/{pid}-out/<i>/ : `patch.diff` (output of `git diff` against the unmodified tree; must apply cleanly with `git apply`), `demo_test.go` (a Go test, in the package it needs, that FAILS with the patch applied and PASSES on the unmodified tree; it demonstrates the property violation, not just a behaviour difference), and `meta.json` with fields: property ("{pid}"), summary, what_it_needs_to_manifest, files_touched, demo_path (where demo_test.go must be placed relative to the repo root, e.g. "storage/zz_demo_test.go"), demo_run (the `go test` command line to run it), commands_run (the exact commands you ran and outcomes for: build, existing tests with the patch, demo with the patch (fails), demo without the patch (passes)). Reset the worktree (`git checkout -- . && git clean -fd`) between changes and at the end. NEVER use `git stash` (the stash is shared by all worktrees of this repository and other agents work in sibling worktrees); save your diff to a file and use `git apply` / `git apply -R` instead. Your final message: a short table of the changes.""")
+For each change i write into /tmp/mut/{pid}-out/<i>/ : `patch.diff` (output of `git diff` against the unmodified tree; must apply cleanly with `git apply`), `demo_test.go` (a Go test, in the package it needs, that FAILS with the patch applied and PASSES on the unmodified tree; it demonstrates the property violation, not just a behaviour difference), and `meta.json` with fields: property ("{pid}"), summary, what_it_needs_to_manifest, files_touched, demo_path (where demo_test.go must be placed relative to the repo root, e.g. "storage/zz_demo_test.go"), demo_run (the `go test` command line to run it), commands_run (the exact commands you ran and outcomes for: build, existing tests with the patch, demo with the patch (fails), demo without the patch (passes)). Reset the worktree (`git checkout -- . && git clean -fd`) between changes and at the end. NEVER use `git stash` (the stash is shared by all worktrees of this repository and other agents work in sibling worktrees); save your diff to a file and use `git apply` / `git apply -R` instead. Your final message: a short table of the changes.{PREVIOUS}""")
